@@ -259,6 +259,15 @@ def build(spec):
                     f = f'=SUMIF({ptexts[0][0]},{ptexts[0][1]})'
                 elif fs.get('target_as_cell'):
                     f = f'=SUMIF({ptexts[0][0]},{ptexts[0][1]},{COLS[target]}1)'
+                elif fs.get('target_shape') == 'offset-col' and height >= 4:
+                    # the criteria range starts in row 3, the sum range is a whole column: position i of the range pairs with row i of that column
+                    k = 2
+                    ci = pairs[0]['col']
+                    sel_k = [accepts(pairs[0]['crit'], cols[ci][i]) for i in range(k, height)]
+                    picked_k = [tcol[i] for i, ok in enumerate(sel_k) if ok]
+                    exp = sum(v for v in picked_k if ckind(v) == 'num')
+                    f = f'=SUMIF({COLS[ci]}{k + 1}:{COLS[ci]}{height},{ptexts[0][1]},{COLS[target]}:{COLS[target]})'
+                    tags = tags + ['sumif-target:offset-col']
                 elif fs.get('target_shape') in ('shorter', 'longer', 'row'):
                     # a sum range of another size: its first cell anchors a range with the shape of the criteria range (Excel),
                     # or the call is an error - but never a silently truncated or transposed fold
@@ -353,7 +362,7 @@ def strategy():
                 tgt = draw(st.sampled_from([target, target, None]))
                 formulas.append({'fn': fn, 'pairs': [{'col': ci, 'crit': crit_for(ci)}], 'target': tgt,
                                  'target_as_cell': draw(st.integers(0, 3)) == 0,
-                                 'target_shape': draw(st.sampled_from([None, None, 'shorter', 'longer', 'row']))})
+                                 'target_shape': draw(st.sampled_from([None, None, 'shorter', 'longer', 'row', 'offset-col']))})
             else:
                 k = draw(st.integers(1, min(3, ncrit + 1)))
                 pairs = []
